@@ -209,6 +209,23 @@ def shard(p):
             else:
                 queries.append(("(%s) * (%s)" % (m, near(rng.choice(words))), None))
         acc.count("near_miss_phrase_queries", p["n"] // 4)
+        # long phrases (60 to 140 bytes) with a multi-byte character - the degree sign inside a word, a non-ASCII blank between words -
+        # starting at every byte offset from 60 to 100: a log line, a key or a preview that cuts the phrase at a fixed number of BYTES
+        # (seed C18-j: the description is dropped when byte 80 falls inside a character). Judged by the trace specification only.
+        import c06 as _c06
+        mb_blanks = [b_ for b_ in _c06.TOOL_BLANKS if len(b_.encode("utf-8")) > 1] or []
+        for k_ in range(60, 101):
+            if (k_ + p["shard"]) % 4:
+                continue
+            ph = rng.choice(plain + unitf)
+            pad = ph + " "
+            while len(pad) < k_:
+                pad += rng.choice(["qq ", "qqq ", "q "])
+            pad = pad[:k_] if pad[k_ - 1] != " " else pad[:k_ - 1] + "q"
+            queries.append((pad + "°qq in kilograms please", None))
+            if mb_blanks:
+                queries.append((pad.rstrip() + "q"[: max(0, k_ - len(pad.rstrip()))] + rng.choice(mb_blanks) + "qq please", None))
+            queries.append(("2 * (" + pad + "°q) / " + rng.choice(plain), None))
         # several failing parts in ONE call or operation (round(zzzz, qqqq), (1 / 0) + (zzqq)): which error is reported, and
         # where, must not depend on whether descriptions are on (seed C18-e)
         fails = ["zzzz", "qqqq", "1 / 0", "1 m + 1 s", "earth NOT", "0 ^ -1", "nosuchfn(1)", "floor()", "2 ^ 1.5", "1 xyzunit"]
